@@ -1,6 +1,13 @@
 (* C14 — snapshot files read back intact; corruption is detected, not loaded.
-   Statements only: each theorem is closed by [exact <lemma>]; proofs live in Proofs/. *)
-From DB Require Import Base.Bytes Base.CRC32 Model.SnapshotHeader Model.BlockFile Proofs.CRC32.
+   Statements only: each theorem is closed by [exact <lemma>]; proofs live in Proofs/.
+   bs is the block size (any positive value; the generated 2 MB constant is one instance).
+
+   Not proved here (covered by the differential run and the monitor only, see checks/C14.json):
+   the streaming validator theorems (validator_language, truncation_rejected), the
+   general header round trip (unmarshal (marshal h) = h; concrete instances below), the
+   checksum half of recorded_size_and_checksum_match (GetV2PayloadChecksum = recorded sum). *)
+From DB Require Import Base.Bytes Base.CRC32 Gen.GenC14 Model.SnapshotHeader Model.BlockFile
+  Proofs.CRC32 Proofs.BlockFile.
 Open Scope N_scope.
 
 (* two byte strings that differ in exactly one bit have different CRC-32 *)
@@ -16,3 +23,110 @@ Theorem crc32_burst_le_32_detected : forall l1 l2 p v,
   crc32 l1 <> crc32 l2.
 Proof. exact Proofs.CRC32.crc32_burst_le_32_detected. Qed.
 Print Assumptions crc32_burst_le_32_detected.
+
+(* BlockWriter: whatever the segmentation of the Write calls, the bytes handed to the file
+   and the recorded payload checksum are the closed form over the concatenation
+   (never a panic) *)
+Theorem writer_closed_form : forall bs segs, (0 < bs)%nat ->
+  v2_body_of bs segs = Some (file_body bs (concat segs), payload_checksum bs (concat segs)).
+Proof. exact v2_body_closed_form. Qed.
+Print Assumptions writer_closed_form.
+
+Theorem write_depends_only_on_concat : forall bs segs1 segs2, (0 < bs)%nat ->
+  concat segs1 = concat segs2 -> v2_body_of bs segs1 = v2_body_of bs segs2.
+Proof. exact write_depends_only_on_concat_proved. Qed.
+Print Assumptions write_depends_only_on_concat.
+
+(* SnapshotReader on the body the writer produces, for ANY sequence of Read sizes: every
+   Read returns the next bytes of the payload, a Read past the end returns the rest with
+   io.EOF, later Reads return (0, EOF); no panic; payload lengths 0, multiples of bs etc.
+   included *)
+Theorem read_write_roundtrip : forall bs p reads, (0 < bs)%nat ->
+  fst (sr_reads bs (v2_reader (file_body bs p)) reads) = spec_reads p false reads.
+Proof. exact read_write_roundtrip_proved. Qed.
+Print Assumptions read_write_roundtrip.
+
+(* the size snapshotter.Save records (GetPayloadSize) is the size of what was written *)
+Theorem recorded_size_matches : forall bs p, (0 < bs)%nat ->
+  nlen (file_body bs p) = v2_payload_size (N.of_nat bs) (nlen p).
+Proof. exact recorded_size_proved. Qed.
+Print Assumptions recorded_size_matches.
+
+(* any single bit of the body (block data, block CRCs, tail) flipped: whatever Reads are
+   issued, the reader hands out exactly what it hands out for the intact file, or the
+   same up to some Read which panics. Altered bytes are never handed out. *)
+Theorem single_bit_flip_rejected_or_identical : forall bs p reads i, (0 < bs)%nat -> wf_bytes p ->
+  agree_until_panic
+    (fst (sr_reads bs (v2_reader (flip_bit (file_body bs p) i)) reads))
+    (fst (sr_reads bs (v2_reader (file_body bs p)) reads)).
+Proof. exact single_bit_flip_body_proved. Qed.
+Print Assumptions single_bit_flip_rejected_or_identical.
+
+(* the body ShrinkSnapshot writes reads back as the 16 byte empty session table, then EOF *)
+Theorem shrunk_is_loadable_empty : forall bs, (0 < bs)%nat ->
+  fst (sr_reads bs (v2_reader (file_body bs empty_lru_session)) [16%nat; 1%nat]) =
+  [OData empty_lru_session; OEof []].
+Proof. exact shrunk_body_reads_proved. Qed.
+Print Assumptions shrunk_is_loadable_empty.
+
+(* ---- non-vacuity and the file level (header included), concrete instances ---- *)
+
+Definition ex_ts : N := 1789000000123456789.
+Definition ex_file : bytes :=
+  match write_file_v2 8 ex_ts compression_snappy [[1; 2; 3]; []; [4; 5; 6; 7; 8; 9; 10; 11; 12; 13; 14; 15; 16; 17; 18; 19]] with
+  | WOk f _ => f | WPanic => [] end.
+
+(* the whole file: header block opens, payload comes back over a block boundary, close ok *)
+Example ex_file_roundtrip :
+  length ex_file = (1024 + 19 + 3 * 4 + 16)%nat /\
+  match read_session 8 ex_file [5%nat; 0%nat; 20%nat; 1%nat] with
+  | Sess h obs closed => h_ver h = 2 /\ h_comp h = compression_snappy /\ closed = true /\
+      obs = [OData [1; 2; 3; 4; 5]; OData []; OEof [6; 7; 8; 9; 10; 11; 12; 13; 14; 15; 16; 17; 18; 19]; OEof []]
+  | _ => False
+  end.
+Proof. vm_compute. repeat split; reflexivity. Qed.
+
+(* recorded checksum = what GetV2PayloadChecksum computes from the file (instance) *)
+Example ex_recorded_checksum :
+  file_payload_checksum 8 ex_file = Some (payload_checksum 8 [1; 2; 3; 4; 5; 6; 7; 8; 9; 10; 11; 12; 13; 14; 15; 16; 17; 18; 19]).
+Proof. vm_compute. reflexivity. Qed.
+
+(* the stream validator accepts the writer's output under several chunkings (bs >= 12 is
+   needed by the validator's 2*(bs+4) look-ahead), and refuses a flipped bit / a cut *)
+Definition ex_file16 : bytes :=
+  match write_file_v2 16 ex_ts compression_none [[1; 2; 3; 4; 5; 6; 7; 8; 9; 10; 11; 12; 13; 14; 15; 16; 17; 18; 19; 20; 21; 22; 23; 24; 25; 26; 27; 28; 29; 30; 31; 32; 33; 34; 35; 36; 37; 38; 39; 40]] with
+  | WOk f _ => f | WPanic => [] end.
+Example ex_validator :
+  validate_stream 16 [ex_file16] = Accept /\
+  validate_stream 16 [firstn 1030 ex_file16; firstn 45 (skipn 1030 ex_file16); skipn 1075 ex_file16] = Accept /\
+  validate_stream 16 [flip_bit ex_file16 (8 * 1030 + 3)] = Reject /\
+  validate_stream 16 [flip_bit ex_file16 (8 * 20 + 1)] = Reject /\     (* a header byte *)
+  validate_stream 16 [firstn (length ex_file16 - 1) ex_file16] = Reject /\
+  validate_stream 16 [firstn 1023 ex_file16] = Panic.
+Proof. vm_compute. repeat split; reflexivity. Qed.
+
+(* a flipped CompressionType bit in the header is refused (the stored header CRC is checked) *)
+Example ex_header_flip_detected :
+  exists i, nth (i / 8) ex_file 0 = compression_snappy /\
+            read_session 8 (flip_bit ex_file i) [19%nat] = SessPanic.
+Proof. exists (8 * 41)%nat. vm_compute. split; reflexivity. Qed.
+
+(* the all-zero escape of validateHeader: a header whose 4 CRC bytes are zero is accepted
+   unchecked - files written before the CRC was stored there, see checks/C14.json *)
+Example ex_zero_crc_escape : validate_header [1; 2; 3] [0; 0; 0; 0] = true.
+Proof. reflexivity. Qed.
+
+(* shrink: the produced file is a valid v2 file, IsShrunkSnapshotFile says yes *)
+Example ex_shrink :
+  match shrink 16 ex_ts ex_file16 with
+  | ShrinkOk nf => is_shrunk 16 nf = ShrOk true /\ validate_stream 16 [nf] = Accept /\
+                   is_shrunk 16 ex_file16 = ShrOk false
+  | _ => False
+  end.
+Proof. vm_compute. repeat split; reflexivity. Qed.
+
+(* hypotheses of the bit flip theorem are satisfiable with an effect: a data bit flipped *)
+Example ex_flip_panics :
+  fst (sr_reads 8 (v2_reader (flip_bit (file_body 8 [1; 2; 3; 4; 5; 6; 7; 8; 9; 10]) 100)) [4%nat; 8%nat])
+  = [OData [1; 2; 3; 4]; OPanic].
+Proof. vm_compute. reflexivity. Qed.
